@@ -543,19 +543,21 @@ pub struct Params {
     pub wo: bool,
     pub faults: bool,
     pub extreme: bool,
+    pub long: bool,
 }
 
 impl Params {
     pub fn header(&self) -> String {
         format!(
-            "limit={} resp={} cap={} coupled={} wo={} faults={} extreme={}",
+            "limit={} resp={} cap={} coupled={} wo={} faults={} extreme={} long={}",
             self.limit.map(|l| l.to_string()).unwrap_or("none".into()),
             self.resp,
             self.cap,
             self.coupled as u8,
             self.wo as u8,
             self.faults as u8,
-            self.extreme as u8
+            self.extreme as u8,
+            self.long as u8
         )
     }
     pub fn from_header(h: &str) -> Params {
@@ -568,6 +570,7 @@ impl Params {
             wo: g("wo", 0) == 1,
             faults: g("faults", 0) == 1,
             extreme: g("extreme", 0) == 1,
+            long: g("long", 0) == 1,
         }
     }
 }
@@ -620,6 +623,12 @@ fn gen_op(rng: &mut Rng, sv: &Server, g: &mut Gen, p: &Params) -> Op {
             let sub = *rng.pick(&[0u64, 1, 999_999, 400_000]);
             let far = ((g.now + rel) / 32_000_000 + 1) * 32_000_000 + (g.nreq % 16) * 2_000_000 + sub;
             let d = if rel == 0 && rng.chance(1, 2) { g.now / 2 } else if rel < 2_000_000 { g.now + rel } else { far };
+            let d = if p.long && rng.chance(1, 2) {
+                let day = 86_400_000_000_000u64;
+                g.now + *rng.pick(&[7 * day, 30 * day, 200 * day]) + (g.nreq % 16) * 2_000_000 + 1_000_000
+            } else {
+                d
+            };
             g.deadlines.push(d);
             let d = if p.extreme && rng.chance(1, 3) {
                 g.now + *rng.pick(&[70_000_000_000_000_000u64, 315_360_000_000_000_000, 3_153_600_000_000_000_000]) + g.nreq * 2_000_000
@@ -714,7 +723,7 @@ pub fn run_script(out: &mut Out, idx: u64, p: &Params, rng: &mut Rng, script: Op
     simt::take_log();
 }
 
-pub fn generate(out: &mut Out, seed: u64, scripts: u64, len: usize, wo: bool, faults: bool, extreme: bool) {
+pub fn generate(out: &mut Out, seed: u64, scripts: u64, len: usize, wo: bool, faults: bool, extreme: bool, long: bool) {
     for idx in 0..scripts {
         let mut rng = Rng::new(seed.wrapping_mul(1_000_003).wrapping_add(idx));
         let p = Params {
@@ -728,6 +737,7 @@ pub fn generate(out: &mut Out, seed: u64, scripts: u64, len: usize, wo: bool, fa
             wo,
             faults,
             extreme,
+            long,
         };
         run_script(out, idx, &p, &mut rng, None, len);
     }
